@@ -43,7 +43,7 @@ def _one(job):
         return (variant["name"], "error", [str(exc)])
     except Exception as exc:  # noqa
         return (variant["name"], "error", [repr(exc)])
-    return (variant["name"], "ran", sorted({o.rule + " " + o.func for o in ck.obls if not o.ok}))
+    return (variant["name"], "ran", sorted({o.rule + " " + o.func + " :: " + o.construct for o in ck.obls if not o.ok}))
 
 
 def run_variants(root, mod, pid, baseline_fail_keys=()):
@@ -56,7 +56,7 @@ def run_variants(root, mod, pid, baseline_fail_keys=()):
 
 
 def run(ck, mod):
-    base = sorted({o.rule + " " + o.func for o in ck.obls if not o.ok})
+    base = sorted({o.rule + " " + o.func + " :: " + o.construct for o in ck.obls if not o.ok})
     res = run_variants(ck.root, mod, ck.pid)
     by = {v["name"]: v for v in mod.SELFTEST}
     armed = killed = neutral = silent = skipped = 0
